@@ -31,6 +31,8 @@ pub enum Fault {
     OperandExtra(usize, usize, u32),
     /// overwrite the NUL padding bytes of the first string in instruction j
     Unterminate(usize),
+    /// overwrite byte b (index modulo the string length) of the first string in instruction j
+    StrByte(usize, usize, u8),
     // ---- word / byte level on the flattened stream ----
     /// overwrite word i of the whole binary
     Word(usize, u32),
@@ -56,6 +58,7 @@ impl Fault {
             Fault::OperandDrop(..) => "fault.operand_drop",
             Fault::OperandExtra(..) => "fault.operand_extra",
             Fault::Unterminate(_) => "fault.unterminate",
+            Fault::StrByte(..) => "fault.str_byte",
             Fault::Word(..) => "fault.word",
             Fault::Flip(_) => "fault.flip",
             Fault::Garbage(..) => "fault.garbage",
@@ -75,6 +78,7 @@ impl Fault {
             Fault::OperandDrop(..) => 8,
             Fault::OperandExtra(..) => 9,
             Fault::Unterminate(_) => 10,
+            Fault::StrByte(..) => 10,
             Fault::Word(..) => 11,
             Fault::Flip(_) => 12,
             Fault::Garbage(..) => 13,
@@ -85,7 +89,7 @@ impl Fault {
 }
 
 pub const FAULT_KINDS: &[&str] = &[
-    "drop", "dup", "swap", "move", "wc", "opcode", "inst_word", "operand_drop", "operand_extra", "unterminate", "word", "flip", "garbage", "byteswap", "trunc",
+    "drop", "dup", "swap", "move", "wc", "opcode", "inst_word", "operand_drop", "operand_extra", "unterminate", "str_byte", "word", "flip", "garbage", "byteswap", "trunc",
 ];
 
 /// Apply the faults in order; returns the bytes the consumer is given and the
@@ -198,6 +202,29 @@ pub fn apply(stream: &Stream, faults: &[Fault]) -> (Vec<u8>, Vec<&'static str>) 
                                     }
                                     fr[last] = u32::from_le_bytes(b);
                                     did = true;
+                                }
+                                break;
+                            }
+                            MOp::L64(_) => w += 2,
+                            MOp::W(..) => w += 1,
+                        }
+                    }
+                }
+            }
+            Fault::StrByte(j, b, v) if flat.is_none() => {
+                if let (Some(fr), Some(inst)) = (frames.get_mut(*j), stream.insts.get(*j)) {
+                    let mut w = 1 + inst.rtype.is_some() as usize + inst.rid.is_some() as usize;
+                    for o in &inst.ops {
+                        match o {
+                            MOp::S(st) => {
+                                if !st.is_empty() {
+                                    let b = *b % st.len();
+                                    let (wi, sh) = (w + b / 4, 8 * (b % 4) as u32);
+                                    if wi < fr.len() {
+                                        let new = (fr[wi] & !(0xFF << sh)) | ((*v as u32) << sh);
+                                        did = new != fr[wi];
+                                        fr[wi] = new;
+                                    }
                                 }
                                 break;
                             }
@@ -378,7 +405,11 @@ pub fn gen_faults(rng: &mut Rng, stream: &Stream, n: usize, enabled: u32) -> Vec
                 if with_str.is_empty() {
                     continue;
                 }
-                Fault::Unterminate(*rng.pick(&with_str))
+                if rng.chance(1, 2) {
+                    Fault::Unterminate(*rng.pick(&with_str))
+                } else {
+                    Fault::StrByte(*rng.pick(&with_str), rng.usize_below(64), *rng.pick(&[0xFFu8, 0xC0, 0xE2, 0x80, 0xF8, b'\n', 0]))
+                }
             }
             11 => {
                 let i = if rng.chance(1, 4) { rng.usize_below(5.min(nwords.max(1))) } else { rng.usize_below(nwords.max(1)) };
@@ -449,7 +480,7 @@ pub fn reindex_after_remove(faults: &[Fault], removed: usize) -> Vec<Fault> {
             Some(match f {
                 Fault::Drop(j) if *j == removed => return None,
                 Fault::Dup(j) if *j == removed => return None,
-                Fault::Wc(j, _) | Fault::Opcode(j, _) | Fault::InstWord(j, _, _) | Fault::OperandDrop(j, _) | Fault::OperandExtra(j, _, _) | Fault::Unterminate(j)
+                Fault::Wc(j, _) | Fault::Opcode(j, _) | Fault::InstWord(j, _, _) | Fault::OperandDrop(j, _) | Fault::OperandExtra(j, _, _) | Fault::Unterminate(j) | Fault::StrByte(j, _, _)
                     if *j == removed =>
                 {
                     return None
@@ -464,6 +495,7 @@ pub fn reindex_after_remove(faults: &[Fault], removed: usize) -> Vec<Fault> {
                 Fault::OperandDrop(j, k) => Fault::OperandDrop(fix(*j), *k),
                 Fault::OperandExtra(j, k, v) => Fault::OperandExtra(fix(*j), *k, *v),
                 Fault::Unterminate(j) => Fault::Unterminate(fix(*j)),
+                Fault::StrByte(j, b, v) => Fault::StrByte(fix(*j), *b, *v),
                 other => other.clone(),
             })
         })
